@@ -249,7 +249,7 @@ deriving Repr, Inhabited
 abbrev Res (α : Type) := Except Err α × St
 
 /-- state-and-exception monad that keeps the state when an exception is raised -/
-abbrev M (α : Type) := St → Res α
+def M (α : Type) := St → Res α
 
 @[inline] def M.pure {α} (a : α) : M α := fun s => (.ok a, s)
 @[inline] def M.bind {α β} (m : M α) (f : α → M β) : M β := fun s =>
@@ -273,10 +273,10 @@ def ofOpt {α} (e : Err) : Option α → M α
   | some a => pure a
   | none => raise e
 
-def forM_ {α} (l : List α) (f : α → M Unit) : M Unit :=
+def forEachM {α} (l : List α) (f : α → M Unit) : M Unit :=
   match l with
   | [] => pure ()
-  | a :: t => do f a; forM_ t f
+  | a :: t => do f a; forEachM t f
 
 /-! ## Path conventions (`container/utils.py`) -/
 
@@ -409,7 +409,7 @@ def schemaRegister (e : Env) (ref : SRef) : M Unit := do
     modC fun c => { c with used := alSet c.used info.pkg [] }
   let s ← getSt
   let provs ← ofOpt .key (alGet s.c.providers ref)
-  forM_ provs fun pkg => do
+  forEachM provs fun pkg => do
     let s ← getSt
     let cur ← ofOpt .key (alGet s.c.used pkg)
     modC fun c => { c with used := alSet c.used pkg (setAdd cur ref) }
@@ -428,7 +428,7 @@ def schemaUnregister (ref : SRef) : M Unit := do
     modC fun c => { c with parents := par, children := chi }
     let s ← getSt
     let provs ← ofOpt .key (alGet s.c.providers ref)
-    forM_ provs fun pkg => do
+    forEachM provs fun pkg => do
       let s ← getSt
       let cur ← ofOpt .key (alGet s.c.used pkg)
       let cur' := setRemove cur ref
@@ -509,7 +509,7 @@ def findMissing (s : St) (p : Path) : Except Err (List Path) :=
 
 /-- `repair_missing(missing, update)` -/
 def repairMissing (e : Env) (missing : List Path) (update : Bool) : M Unit :=
-  forM_ missing fun p => do
+  forEachM missing fun p => do
     match objOfPath p with
     | none => raise .value
     | some (r, u) =>
@@ -678,7 +678,7 @@ def destroyMeta (p : Path) (isDs : Bool) (unlink : Bool) : M Unit := do
   if !isDs then
     -- `for child in self.values(): child._destroy_meta()`: the listing is taken lazily in the
     -- real code; user nodes are not touched by metadata deletion, so it is fixed up front
-    forM_ (userNodesFrom s.raw p) fun (q, d) => do
+    forEachM (userNodesFrom s.raw p) fun (q, d) => do
       let s ← getSt
       (openHandle s q d).destroy unlink
 
@@ -822,7 +822,7 @@ deriving Repr, Inhabited
 inductive Op where
   | createGroup (p : Path)
   | createDataset (p : Path) (tok : String)
-  | meta (p : Path) (ops : List MetaOp)   -- operations on ONE `node.meta` handle
+  | onMeta (p : Path) (ops : List MetaOp)   -- operations on ONE `node.meta` handle
   | delete (p : Path)
   | copy (src dst : Path) (withoutMeta : Bool)
   | move (src dst : Path)
@@ -830,24 +830,41 @@ inductive Op where
   | patch                                  -- IH5 patch boundary: invisible at this level (C01/C09)
 deriving Repr, Inhabited
 
-/-- the sub-operations on one handle; stops at the first exception (the harness records the
-outcome of every sub-operation, see `metaSeqTrace` in the driver) -/
-def metaStep (e : Env) (h : Handle) : MetaOp → M Handle
-  | .set n v ok tok => h.set e n v ok tok
-  | .del n => h.del n
-  | .get n v => fun s =>
-    match h.get e s n v with
-    | .ok _ => (.ok h, s)
-    | .error err => (.error err, s)
+/-- what the caller of one sub-operation on a handle sees -/
+inductive Outcome where
+  | done                 -- `set` / `del` returned
+  | found (r : Bool)     -- `get` returned an object / `None`
+  | raised (e : Err)
+deriving Repr, Inhabited, DecidableEq
 
-/-- run all sub-operations on one handle, continuing after exceptions (the caller catches
-them one by one) -/
-def metaSeq (e : Env) : Handle → List MetaOp → M Unit
-  | _, [] => pure ()
-  | h, o :: os => fun s =>
+/-- one sub-operation on a kept `node.meta` handle -/
+def metaStep (e : Env) (h : Handle) (o : MetaOp) (s : St) : (Outcome × Handle) × St :=
+  match o with
+  | .set n v ok tok =>
+    match h.set e n v ok tok s with
+    | (.ok h', s') => ((.done, h'), s')
+    | (.error err, s') => ((.raised err, h), s')
+  | .del n =>
+    match h.del n s with
+    | (.ok h', s') => ((.done, h'), s')
+    | (.error err, s') => ((.raised err, h), s')
+  | .get n v =>
+    match h.get e s n v with
+    | .ok r => ((.found r.isSome, h), s)
+    | .error err => ((.raised err, h), s)
+
+/-- all sub-operations on one handle; the caller catches the exceptions one by one, so the
+sequence continues after a refused sub-operation -/
+def metaSeqTrace (e : Env) : Handle → List MetaOp → St → List Outcome × St
+  | _, [], s => ([], s)
+  | h, o :: os, s =>
     match metaStep e h o s with
-    | (.ok h', s') => metaSeq e h' os s'
-    | (.error _, s') => metaSeq e h os s'
+    | ((out, h'), s') =>
+      let r := metaSeqTrace e h' os s'
+      (out :: r.1, r.2)
+
+def metaSeq (e : Env) (h : Handle) (ops : List MetaOp) : M Unit := fun s =>
+  (.ok (), (metaSeqTrace e h ops s).2)
 
 def opMeta (e : Env) (p : Path) (ops : List MetaOp) : M Unit := do
   let s ← getSt
@@ -858,7 +875,7 @@ def step (e : Env) (op : Op) : M Unit :=
   match op with
   | .createGroup p => opCreateGroup p
   | .createDataset p tok => opCreateDataset p tok
-  | .meta p ops => opMeta e p ops
+  | .onMeta p ops => opMeta e p ops
   | .delete p => opDelete p
   | .copy src dst wm => opCopy e src dst wm
   | .move src dst => opMove e src dst
